@@ -267,6 +267,21 @@ func seedPayloads() []*V {
 			nmix++
 		}
 	}
+	// a struct held BY VALUE in a []interface{} that is a map value: first, last, next to a pointer to the same type
+	add(imap("k1", &V{K: "islice", Elems: []*V{inner(1)}}))
+	add(imap("k1", &V{K: "islice", Elems: []*V{{K: "int", I: 3}, inner(1), ptr(inner(10)), str(20)}}, "k2", str(30)))
+	add(ptr(st(fld("F1", nil, imap("k1", imap("k2", &V{K: "islice", Elems: []*V{ptr(inner(1)), inner(10)}}))))))
+	add(tmapv([]PTag{{Ptr: "/k1", Class: "public"}}, "k1", str(90), "k2", &V{K: "islice", Elems: []*V{inner(1), imap("k1", str(5))}}))
+	// pointer tags whose TARGET is no scalar: a nested map, a []string, a [][]byte, a mixed []interface{}, a pointer to a struct -
+	// public (the whole container stays as it is), sensitive, secret, with each operation
+	for _, target := range []*V{imap("k1", str(1), "k2", imap("k1", str(2))), {K: "strs", Cs: []int{1, 2}}, {K: "bytess", Cs: []int{1, 2}},
+		{K: "islice", Elems: []*V{str(1), imap("k1", str(2)), {K: "int", I: 3}}}, ptr(inner(1))} {
+		for _, tg := range []PTag{{Class: "public"}, {Class: "public", Op: "encrypt"}, {Class: "sensitive"}, {Class: "sensitive", Op: "hmac-sha256"}, {Class: "secret"}, {Class: "secret", Op: "encrypt"}, {Class: "sensitive", Op: "redact"}} {
+			tg.Ptr = "/k1"
+			add(tmapv([]PTag{tg}, "k1", target, "k2", str(30)))
+		}
+		add(ptr(st(fld("F1", nil, tmapv([]PTag{{Ptr: "/k1", Class: "public"}, {Ptr: "/k3", Class: "public"}}, "k1", target, "k2", str(30), "k3", target)))))
+	}
 	// unexported fields (F10)
 	add(ptr(&V{K: "hand", Hand: "UnexpA", Fields: []Field{fld("hidden", nil, &V{K: "int", I: 7}), fld("hiddenS", nil, str(1)), fld("N", nil, &V{K: "int", I: 5}), fld("Sec", sec, str(2)), fld("Pub", pub, str(3))}}))
 	return out
